@@ -29,12 +29,6 @@ Why(c, s) == IF c THEN {s} ELSE {}
 Proj(r) == [c \in 1..Len(r) |-> [rid |-> r[c].rid, t |-> r[c].t]]
 PriorProj(st) == [c \in 1..Len(st.rho) |-> IF st.rho[c].rid = 0 THEN [rid |-> 0, t |-> 0] ELSE [rid |-> st.rho[c].rid, t |-> st.rho[c].t]]
 
-\* KNOWN finding banned_set: every guarantee is refused with banned_validator as soon as ANY validator of
-\* the key set its rotation uses is an offender, although none of its credentials is that validator's
-OffenderInSet(st, ext) ==
-  \E i \in 1..Len(ext) : \E k \in SetOf(IF SameRotation(P, st.tau, ext[i].slot) \/ PrevInSameEpoch(P, st.tau) THEN st.kappa ELSE st.lambda) :
-     k \in SetOf(st.off)
-
 Judge(e) ==
   IF e.panic = 1 THEN {"go_panic"}
   ELSE \* one evaluation of each assignment per line
@@ -44,29 +38,27 @@ Judge(e) ==
              MS == q[2]
              viol == Violated(P, M, MS, st, ext)
              unsure == ViolatedUnsure(P, st, ext)
-         IN Why(e.prior_after # PriorProj(st), "prior_rho_changed")
+         IN \* the two formulations of the function agree (an internal error of the specification otherwise)
+            IF (viol = {}) # Admissible(P, M, MS, st, ext) \/ (viol = {} /\ ((unsure = {}) # StrictlyAdmissible(P, M, MS, st, ext)))
+            THEN Assert(FALSE, <<"Violated and Admissible disagree at line", l>>)
+            ELSE
+            Why(e.prior_after # PriorProj(st), "prior_rho_changed")
             \cup Why(e.kappa_after # st.kappa \/ e.lambda_after # st.lambda, "validator_keys_changed_in_store")
             \cup (IF e.ok
                   THEN {"accepted_although_" \o v : v \in viol}
                        \cup (IF viol = {} THEN Why(e.rho_post # Proj(RhoNext(P, st, ext)), "posterior_rho_differs")
                                                \cup Why(e.reporters # Reporters(P, M, MS, st, ext), "reporters_differ")
                              ELSE {})
-                  ELSE Why(viol = {} /\ unsure = {} /\ ~("banned_set" \in KnownDeviations /\ OffenderInSet(st, ext) /\ e.err = "banned_validator"),
-                           "admissible_extrinsic_refused")
+                  ELSE Why(viol = {} /\ unsure = {}, "admissible_extrinsic_refused")
                        \cup Why(e.rho_post # e.rho_before, "posterior_rho_changed_on_refusal")
                        \cup Why(e.rdd_after # Proj(RhoDD(P, st)), "rho_double_dagger_changed_on_refusal"))
          : q \in {<<MCur(P, e.st), MPrev(P, e.st)>>}}
-
-UsesDeviation(e) == e.panic = 0 /\ ~e.ok /\ "banned_set" \in KnownDeviations /\ e.err = "banned_validator"
-                    /\ OffenderInSet(e.st, e.ext)
-                    /\ \A q \in {<<MCur(P, e.st), MPrev(P, e.st)>>} :
-                          Violated(P, q[1], q[2], e.st, e.ext) = {} /\ ViolatedUnsure(P, e.st, e.ext) = {}
 
 Init == l = 1 /\ devs = {} /\ bad = {}
 Next == /\ l <= Len(Trace)
         /\ LET e == Trace[l] IN
            /\ bad' = bad \cup {[l |-> l, why |-> y] : y \in Judge(e)}
-           /\ devs' = IF UsesDeviation(e) THEN devs \cup {"banned_set"} ELSE devs
+           /\ devs' = devs                       \* no open finding: no deviation is enabled
         /\ l' = l + 1
 TraceSpec == Init /\ [][Next]_<<l, devs, bad>>
 
